@@ -4,12 +4,14 @@ import (
 	"github.com/open-policy-agent/opa/ast"
 )
 
-// deniedCallsInPrintModifiers looks for calls of the built-ins in unsafeBuiltinsMap in the with-modifiers of print(...)
-// calls, in the module as it is written. The compiler checks for unsafe built-ins only after it has rewritten the print
-// calls, and that rewrite drops their with-modifiers: `print("x") with input as http.send(...)` used to be accepted, with
-// the call removed, instead of being rejected like any other call of http.send. Everything else is still in the module
-// when the compiler checks it. Functions that the module defines itself under one of these names are not the built-ins.
-func deniedCallsInPrintModifiers(name string, code string) error {
+// deniedCallsInWithModifiers looks for calls of the built-ins in unsafeBuiltinsMap in the with-modifiers of the module as
+// it is written. The compiler checks for unsafe built-ins only among the calls that its earlier stages have turned into
+// expressions of their own, and two kinds of call never get there: a call inside the target of a with-modifier
+// (`... with input[http.send(...).body] as 1`) is left where it is, and the with-modifiers of a print(...) call are dropped
+// when the call is rewritten (`print("x") with input as http.send(...)`). Both used to be accepted instead of being
+// rejected like any other call of http.send. Functions that the module defines itself under one of these names are not
+// the built-ins.
+func deniedCallsInWithModifiers(name string, code string) error {
 	module, err := ast.ParseModule(name, code)
 	if err != nil || module == nil {
 		return err
@@ -40,11 +42,9 @@ func deniedCallsInPrintModifiers(name string, code string) error {
 		})
 	}
 	ast.WalkExprs(module, func(expr *ast.Expr) bool {
-		if expr.IsCall() && expr.Operator().String() == ast.Print.Name {
-			for _, modifier := range expr.With {
-				search(modifier.Target)
-				search(modifier.Value)
-			}
+		for _, modifier := range expr.With {
+			search(modifier.Target)
+			search(modifier.Value)
 		}
 		return false
 	})
